@@ -12,7 +12,7 @@
   * `_get_const_repr` (`constRepr`): no dimension 0, FLOAT/INT64, rank 0 or rank 1 with < 5 elements, all finite;
   * `_translate_node` (inline constants, control flow dispatch, graph-attribute refusal, the operator-sugar table —
     with the dead key `"Lesser"` —, parentheses around a `-…` base of `**`, call form, `_i` for missing outputs,
-    suppression of `x = Identity(x)`), `_translate_attributes`, `_translate_if`, `_translate_loop`, `_emit_assign`,
+    suppression of `x = Identity(x)`), `_translate_attributes`, `_translate_if`, `_translate_loop` (the table of inlined constants saved/restored per branch and body, fix e0cdb9e), `_emit_assign`,
     `_translate_graph_body` (initializers → `Constant` with the ONNX name, translated once; `skip_initializers`;
     sparse refusal), `_translate_function` (sorted used names, attributes registered before the inputs),
     `_translate_graph` (own remapping scope, body first, signature through the renamer, dedent when nothing was
@@ -454,14 +454,19 @@ def translateIf (o : Opts) (recIn : Node → St → R) (n : Node) (indent : Nat)
   match n.attrs with
   | [a0, a1] =>
     let (elseB, thenB) := if a0.1 == "else_branch" then (a0.2.g, a1.2.g) else (a1.2.g, a0.2.g)
+    -- fix e0cdb9e: a constant inlined in a branch is local to it — the table is saved here and restored after the
+    -- assignments closing each branch (which may still refer to a constant of that branch)
+    let outer := st.constants
     match graphBody o recIn thenB st with
     | .error e => .error e
     | .ok (tl, st) =>
       let (ta, st) := emitAssign o (indent + 1) st n.outs thenB.outputs
+      let st := { st with constants := outer }
       match graphBody o recIn elseB st with
       | .error e => .error e
       | .ok (el, st) =>
         let (ea, st) := emitAssign o (indent + 1) st n.outs elseB.outputs
+        let st := { st with constants := outer }
         -- no output is read anywhere: the (checked) translation is dropped (fix 0215218)
         if !(n.outs.any (fun x => st.namesRead.contains x)) then .ok ([], st)
         else .ok ([line indent ("if " ++ cond)] ++ tl ++ ta ++ [line indent "else"] ++ el ++ ea, st)
@@ -510,6 +515,8 @@ def translateLoop (o : Opts) (recIn : Node → St → R) (d : Nat) (n : Node) (i
       match hdr with
       | .error e => .error e
       | .ok (h, st) =>
+        -- fix e0cdb9e: a constant inlined in the loop body is local to the body
+        let outer := st.constants
         match graphBody o recIn body st with
         | .error e => .error e
         | .ok (bl, st) =>
@@ -521,6 +528,7 @@ def translateLoop (o : Opts) (recIn : Node → St → R) (d : Nat) (n : Node) (i
           | .error e => .error e
           | .ok (rows3, st) =>
             let (rows4, st) := emitAssign o (indent + 1) st formalIns formalOuts
+            let st := { st with constants := outer }
             let brk := if breakLast then [line (indent + 1) ("breakif " ++ pyCond)] else []
             let (rows5, st) := emitAssign o indent st actualOuts formalIns
             .ok (rows1 ++ rows2 ++ h ++ bl ++ rows3 ++ rows4 ++ brk ++ rows5, st)
@@ -617,7 +625,7 @@ structure ModelP where
     over the (sorted) used names done, `_names_used`/`_names_read`/`_local_functions` set, the attribute parameters
     registered (fix 9e40403: before the inputs are translated) -/
 def funcState (o : Opts) (d : Nat) (f : FunctionP) (st : St) : St :=
-  let st := { st with attrRen := [] }
+  let st := { st with attrRen := [], constants := [] }  -- fix e0cdb9e: inlined constants are local to the function
   let (renamed, st) := translateVars o st f.usedOrder
   let st := { st with namesUsed := renamed, namesRead := f.outputs ++ namesReadBy d f.nodes }
   let st := { st with localFns := (cleanup f.name, f.domain, f.name) :: st.localFns }
@@ -653,7 +661,9 @@ def ModelP.funName (m : ModelP) : String :=
 /-- body, signature and `return` of `_translate_graph` at a given indentation level.  The main graph gets its own
     remapping scope (pushed before the body, popped after the `return` line) — fix e68372f. -/
 def graphProg (o : Opts) (d : Nat) (m : ModelP) (funName : String) (indent : Nat) (st : St) : R :=
-  let st := { st with remaps := [] :: st.remaps, namesRead := m.graph.outputs ++ namesReadBy d m.graph.nodes }
+  -- fix e0cdb9e: the inlined constants of the functions translated before are not visible in the main graph
+  let st := { st with remaps := [] :: st.remaps, namesRead := m.graph.outputs ++ namesReadBy d m.graph.nodes,
+                      constants := [] }
   -- the body is translated first; the signature then goes through the exporter's renamer (fix efaa07e)
   match graphBody o (translateNode o m.opsets d indent) m.graph st with
   | .error e => .error e
